@@ -8,7 +8,7 @@ import OpusProofs.RangeCoderCodes
 import OpusProofs.SilkSymsEncRoundTrip
 import OpusProofs.OpusFrameSilk
 import OpusProofs.OpusFrameRed
-import OpusProofs.OpusFrameCeltExample
+import OpusProofs.OpusFrameLockstepExample
 /-
   Property C08 — "Range coder: the decoder inverts the encoder symbol for symbol, within budget".
 
@@ -753,5 +753,163 @@ example :
            Opus.OpusFrameEnc.redSigOps true true 0 0 0)).rng)
      | _ => false) = true := by
   decide +kernel
+
+/-! ## Patching is coding the true bits; the frame-level capstone -/
+
+open Opus.RangeCoder in
+/-- **`ec_enc_patch_initial_bits` versus coding the bits in the first place.**  A stream whose first `k ≤ 7` bits are
+    coded as a placeholder (symbol 0 of `2^k` equiprobable ones: what `silk_Encode` does for its VAD / LBRR flags),
+    followed by range-coded operations `body`, the patch of those bits to `w`, and ANY legal continuation `suf`
+    (raw bits, `ec_enc_uint`, `ec_enc_shrink` included), is — after `ec_enc_done`, field for field: bytes, `rng`, `nbits_total`,
+    storage, error flag — the stream obtained by coding the `k` bits of `w` one by one first (`bitsOps w k`), then `body`,
+    then `suf`.  Before `ec_enc_done` the two coders agree up to the representation of a pending first digit 0xFF (`canon`:
+    `rem = 255` versus one more `ext`; the patch can create the former, `ec_enc_carry_out` only the latter), and the
+    second run is a legal run in the sense of the round-trip theorems (no patch in it).  The proof is a simulation:
+    `twin k w c` is the state of the second coder when the first is in `c` — the top `k` bits of the first output digit,
+    wherever that digit currently lives (`val`, `rem`, `buf[0]`), hold `w` instead of 0 — and the cell invariant of
+    `decode_encode_patched` is what keeps the low bits from carrying into them.  Consequence used below: the main coder of
+    a hybrid Opus frame, which patches the SILK flags, can be replaced by a patch-free run with the same output. -/
+theorem patched_equals_true_bits (buf : List Nat) (size k w : Nat) (body suf : List Op) (hs : size ≤ buf.length)
+    (hb : BytesOk buf) (hk1 : 1 ≤ k) (hk7 : k ≤ 7) (hw : w < 2 ^ k) (hbody : ∀ op ∈ body, op.isPrim = true ∧ op.Legal)
+    (hsuf : LegalRun (encRun (encInit buf size) (.icdf 0 (flagTable k) 8 :: (body ++ [.patchInitial w k]))) suf)
+    (hn : (encRun (encInit buf size) (.icdf 0 (flagTable k) 8 :: (body ++ [.patchInitial w k] ++ suf))).nbitsTotal < 4294967296)
+    (herr : (encRun (encInit buf size) (.icdf 0 (flagTable k) 8 :: (body ++ [.patchInitial w k] ++ suf))).error = 0) :
+    canon (encRun (encInit buf size) (.icdf 0 (flagTable k) 8 :: (body ++ [.patchInitial w k] ++ suf))) =
+      canon (encRun (encInit buf size) (bitsOps w k ++ body ++ suf)) ∧
+    RunInv (encRun (encInit buf size) (bitsOps w k ++ body ++ suf)) ∧
+    LegalRun (encInit buf size) (bitsOps w k ++ body ++ suf) ∧
+    encodeAll buf size (.icdf 0 (flagTable k) 8 :: (body ++ [.patchInitial w k] ++ suf)) =
+      encodeAll buf size (bitsOps w k ++ body ++ suf) :=
+  patched_eq_bits buf size k w body suf hs hb hk1 hk7 hw hbody hsuf hn herr
+
+open Opus.RangeCoder in
+/-- a 4-bit flag word 0b1011 patched behind three symbols, then a symbol, 5 raw bits and a `ec_enc_uint`: the two op lists
+    give the same 12 finished bytes (and the hypotheses hold) -/
+example : (∀ op ∈ [Op.icdf 1 [200, 100, 0] 8, .encodeBin 3 4 3, .bitLogp 1 2], op.isPrim = true ∧ op.Legal) ∧
+    LegalRun (encRun (encInit (List.replicate 12 7) 12)
+      (.icdf 0 (flagTable 4) 8 :: ([Op.icdf 1 [200, 100, 0] 8, .encodeBin 3 4 3, .bitLogp 1 2] ++ [.patchInitial 11 4])))
+      [.icdf 2 [200, 100, 0] 8, .bits 21 5, .uint 1000 70000] ∧
+    (encodeAll (List.replicate 12 7) 12 (.icdf 0 (flagTable 4) 8 :: ([Op.icdf 1 [200, 100, 0] 8, .encodeBin 3 4 3, .bitLogp 1 2] ++
+      [.patchInitial 11 4] ++ [.icdf 2 [200, 100, 0] 8, .bits 21 5, .uint 1000 70000]))).error = 0 ∧
+    encodeAll (List.replicate 12 7) 12 (.icdf 0 (flagTable 4) 8 :: ([Op.icdf 1 [200, 100, 0] 8, .encodeBin 3 4 3, .bitLogp 1 2] ++
+      [.patchInitial 11 4] ++ [.icdf 2 [200, 100, 0] 8, .bits 21 5, .uint 1000 70000])) =
+    encodeAll (List.replicate 12 7) 12 (bitsOps 11 4 ++ [Op.icdf 1 [200, 100, 0] 8, .encodeBin 3 4 3, .bitLogp 1 2] ++
+      [.icdf 2 [200, 100, 0] 8, .bits 21 5, .uint 1000 70000]) := by
+  decide +kernel
+
+open Opus.RangeCoder in
+/-- the corner the `canon` in the statement is about: flags 0b1111 and eight more one-bits make the first byte 0xFF; after
+    the patch the first coder holds it as `rem = 255, ext = 0`, the second as `rem = -1, ext = 1`; the finished streams are
+    equal (`ff f2 00 … 03`) -/
+example :
+    ((encRun (encInit (List.replicate 8 7) 8) (.icdf 0 (flagTable 4) 8 :: ([Op.encodeBin 15 16 4, .encodeBin 15 16 4] ++ [.patchInitial 15 4]))).rem,
+     (encRun (encInit (List.replicate 8 7) 8) (.icdf 0 (flagTable 4) 8 :: ([Op.encodeBin 15 16 4, .encodeBin 15 16 4] ++ [.patchInitial 15 4]))).ext,
+     (encRun (encInit (List.replicate 8 7) 8) (bitsOps 15 4 ++ [Op.encodeBin 15 16 4, .encodeBin 15 16 4])).rem,
+     (encRun (encInit (List.replicate 8 7) 8) (bitsOps 15 4 ++ [Op.encodeBin 15 16 4, .encodeBin 15 16 4])).ext) = (255, 0, -1, 1) ∧
+    encodeAll (List.replicate 8 7) 8 (.icdf 0 (flagTable 4) 8 :: ([Op.encodeBin 15 16 4, .encodeBin 15 16 4] ++ [.patchInitial 15 4] ++
+      [.bits 3 2, .encodeBin 1 2 3])) =
+    encodeAll (List.replicate 8 7) 8 (bitsOps 15 4 ++ [Op.encodeBin 15 16 4, .encodeBin 15 16 4] ++ [.bits 3 2, .encodeBin 1 2 3]) ∧
+    (encodeAll (List.replicate 8 7) 8 (bitsOps 15 4 ++ [Op.encodeBin 15 16 4, .encodeBin 15 16 4] ++ [.bits 3 2, .encodeBin 1 2 3])).buf =
+      [255, 242, 0, 0, 0, 0, 0, 3] := by
+  decide +kernel
+
+open Opus.SilkSyms Opus.SilkSymsEnc Opus.SilkSymsEncProofs Opus.OpusFrameEnc Opus.OpusFrameProofs in
+/-- `opus_frame_lockstep_hybrid` WITHOUT redundancy and with NO CELT hypothesis left: the CELT part of the frame is what
+    C17's encoder model `encFrame` (header, allocation, fine energy, band data, anti-collapse, finalisation) writes on the
+    shared coder behind the SILK part, the redundancy flag 0 (if the encoder's budget test `gate` passed) and the
+    `ec_enc_shrink`; `CeltFrameRT` is discharged by C17's `celt_frame_roundtrip` with the prefix `P0 = hybridP0` — the legal,
+    patch-free form of the SILK prefix that `patched_equals_true_bits` provides (C17's `World` is a legal run).
+    `HybridCelt` bundles C17's hypotheses (non-silent frame, final length = budgeted size or the VBR `min_allowed` margin,
+    room for the first symbol, tapset and stereo decisions in range); the CELT encoder model starts in the state of the legal
+    run behind `P0`, which equals the patched coder's state except possibly for the representation of a pending 0xFF first
+    byte.  Residual hypotheses besides: DSP decisions (SILK `PacketIn`, CELT `s0.ds`) as inputs, legality of the run,
+    `nbits_total < 2^29` (the bound of C17's `World`; a C `int` shifted left by 3), `ec_enc_done` without error, `hgate` (the
+    decoder's length test ⇔ the encoder's budget test: C02 `redundancy_mirror_hybrid_partial`), a non-empty frame. -/
+theorem opus_frame_lockstep_hybrid_celt (buf : List Nat) (maxData bandwidth nCh ms10 spf48 : Nat) (pk : PacketIn)
+    (st : SilkSt) (gate : Bool) (ccfg : Opus.CeltSymsEnc.EncCfg) (s0 : Opus.CeltSymsEnc.St) (fr : Opus.CeltBandsEnc.EncFrame)
+    (hms : ms10 = 100 ∨ ms10 = 200)
+    (hs : maxData - 1 ≤ buf.length) (hb : BytesOk buf) (hok : PacketOk (hybridCfg nCh ms10) pk)
+    (hsuf : LegalRun (encRun (encInit buf (maxData - 1)) (packetOps (hybridCfg nCh ms10) pk ++ redSigOps true gate 0 0 0))
+      (Op.shrink (maxData - 1 - 0) :: fr.ops))
+    (hn29 : (encodeAll buf (maxData - 1) (hybridOps maxData (hybridCfg nCh ms10) pk gate 0 0 0 fr.ops)).nbitsTotal < 536870912)
+    (herr : (encodeAll buf (maxData - 1) (hybridOps maxData (hybridCfg nCh ms10) pk gate 0 0 0 fr.ops)).error = 0)
+    (hgate : (tell (encRun (encInit buf (maxData - 1)) (packetOps (hybridCfg nCh ms10) pk)) + 17 + 20 ≤
+        8 * (((encodeAll buf (maxData - 1) (hybridOps maxData (hybridCfg nCh ms10) pk gate 0 0 0 fr.ops)).storage : Nat) : Int)) ↔
+      gate = true)
+    (hmainpos : 0 < (encodeAll buf (maxData - 1) (hybridOps maxData (hybridCfg nCh ms10) pk gate 0 0 0 fr.ops)).storage)
+    (hcelt : HybridCelt buf maxData (hybridCfg nCh ms10) pk gate ccfg s0 fr)
+    (hcc : ccfg.start = 17 ∧ ccfg.end_ = Opus.CeltSyms.endBandOf bandwidth ∧ ccfg.C = nCh ∧ ccfg.LM = Opus.CeltSyms.lmOf spf48) :
+    ∃ o, decodeOpusFrame 1001 bandwidth nCh ms10 false st
+        (hybridFrame buf maxData (hybridCfg nCh ms10) pk gate 0 0 fr.ops [] 0).payload = .ok o ∧
+      o.redundancy = 0 ∧
+      o.evs = packetEvs (hybridCfg nCh ms10) pk (fun j =>
+        ((encRun (encInit buf (maxData - 1)) (prefixOps (hybridCfg nCh ms10) pk j)).rng,
+         tell (encRun (encInit buf (maxData - 1)) (prefixOps (hybridCfg nCh ms10) pk j)))) ∧
+      decRangeFinal 1001 bandwidth nCh spf48 (hybridFrame buf maxData (hybridCfg nCh ms10) pk gate 0 0 fr.ops [] 0).payload o =
+        .ok (hybridFrame buf maxData (hybridCfg nCh ms10) pk gate 0 0 fr.ops [] 0).rangeFinal :=
+  opus_frame_lockstep_hybrid_celt_all buf maxData bandwidth nCh ms10 spf48 pk st gate ccfg s0 fr hms hs hb hok hsuf hn29 herr hgate
+    hmainpos hcelt hcc
+
+open Opus.OpusFrameEnc Opus.OpusFrameProofs Opus.OpusFrameProofs.Example in
+/-- an SWB mono 10 ms hybrid frame of 60 bytes: WB SILK part, redundancy flag 0, CELT bands 17-18 from C17's encoder model
+    (33 coder calls): it is a case of `OpusFrameCase` — every hypothesis above evaluated in the kernel -/
+example : ∃ fr, Opus.CeltBandsEnc.encFrame cfgH s0H = .ok fr ∧ fr.ops.length = 33 ∧
+    OpusFrameCase 1104 1 100 480 1001 (hybridFrame bufH 61 (hybridCfg 1 100) hybPacket true 0 0 fr.ops [] 0) := caseHybrid
+
+open Opus.OpusFrameEnc Opus.OpusFrameProofs in
+/-- **Frame-level lock step for CELT-only frames**: the frame is the packet C17's encoder model `encFrame` produces on its
+    own coder (`OwnCoderFrame`: C17's hypotheses with empty prefix; `w.all = fr.ops`: nothing but `ec_enc_done` follows);
+    C03's `celtFrame` from band 0 on the finished bytes ends with the encoder's final range. -/
+theorem opus_frame_lockstep_celt (bandwidth nCh spf48 : Nat) (w : OpusProofs.CeltHdr.World) (ccfg : Opus.CeltSymsEnc.EncCfg)
+    (s0 : Opus.CeltSymsEnc.St) (fr : Opus.CeltBandsEnc.EncFrame) (hown : OwnCoderFrame w ccfg s0 fr) (hall : w.all = fr.ops)
+    (hcc : ccfg.start = 0 ∧ ccfg.end_ = Opus.CeltSyms.endBandOf bandwidth ∧ ccfg.C = nCh ∧ ccfg.LM = Opus.CeltSyms.lmOf spf48) :
+    (celtOnlyFrame w.buf w.size w.all).payload = w.bytes ∧
+    celtRangeFinal bandwidth nCh spf48 (celtOnlyFrame w.buf w.size w.all).payload =
+      .ok (celtOnlyFrame w.buf w.size w.all).rangeFinal :=
+  opus_frame_lockstep_celt_all bandwidth nCh spf48 w ccfg s0 fr hown hall hcc
+
+open Opus.OpusFrameEnc Opus.OpusFrameProofs Opus.OpusFrameProofs.Example in
+/-- C17's 24-byte 2.5 ms NB frame (75 coder calls) is a CELT-only case -/
+example : ∃ fr, OpusFrameCase 1101 1 25 120 1002
+      (celtOnlyFrame OpusProofs.CeltHdr.Example.worldF.buf OpusProofs.CeltHdr.Example.worldF.size OpusProofs.CeltHdr.Example.worldF.all) ∧
+    Opus.CeltBandsEnc.encFrame OpusProofs.CeltHdr.Example.cfg OpusProofs.CeltHdr.Example.s0F = .ok fr ∧ fr.ops.length = 75 := caseCelt
+
+open Opus.SilkSyms Opus.OpusFrameEnc Opus.OpusFrameProofs in
+/-- **The frame-level lock step, all frame kinds** — C02's clause "the decoder ends each packet with a range-coder final
+    state identical to the one the encoder reports", at the symbol level.  `OpusFrameCase bandwidth nCh ms10 spf48 mode f`
+    (OpusProofs/OpusFrameLockstep.lean) says that `f` is the output (payload without TOC byte, `st->rangeFinal`) of the
+    encoder model for one of:
+    * `silk`     SILK-only without redundancy (`silkOnlyFrame`: SILK payload, `ret=(ec_tell+7)>>3`, trailing-zero strip);
+    * `silkRed`  SILK-only with a 5 ms redundancy frame produced by C17's CELT encoder model on a coder of its own;
+    * `hybrid`   hybrid without redundancy, CELT part from C17's encoder model on the shared coder;
+    * `celt`     CELT-only, the frame of C17's encoder model;
+    each with exactly the hypotheses of the corresponding theorem above.  Then, for ANY decoder history `st`, C03's decoder
+    model (`frameRangeFinal`: `decodeOpusFrame` — SILK symbols, redundancy parse — then `celtFrame` for the CELT part and for
+    the redundancy frame, XOR) returns the encoder's `rangeFinal`.
+    Residual hypotheses, all inside `OpusFrameCase`: the DSP decisions are inputs (SILK `PacketIn` in `PacketOk`; CELT
+    decision streams `s0.ds` for which `encFrame` returns `.ok`); CELT frames are NOT silent (C17 proves the header of silent
+    frames only) ; the coder ends without error and `nbits_total < 2^32` (`< 2^29` where a C17 `World` is built); SILK frames
+    fit their budget (`hfit`: otherwise the encoder sends the PLC byte); the length contracts `hgate` (C02's
+    `redundancy_mirror_*`); for CELT parts the final length is the budgeted size or leaves the VBR `min_allowed` margin
+    (C17's `hmargin`).  Not a case: hybrid frames WITH redundancy — there C03's decoder is initialised on main part ++
+    redundancy bytes and may have read into the latter before `storage -= redundancy_bytes`, so its state is not the one
+    C17's `World` (initialised on the main part) starts from; `opus_frame_lockstep_hybrid` covers them with the CELT main
+    part as hypothesis `CeltFrameRT` — and one-byte / DTX frames (no range coder). -/
+theorem opus_frame_lockstep {bandwidth nCh ms10 spf48 mode : Nat} {f : FrameEnc}
+    (h : OpusFrameCase bandwidth nCh ms10 spf48 mode f) (st : SilkSt) :
+    frameRangeFinal mode bandwidth nCh ms10 spf48 st f.payload = .ok f.rangeFinal :=
+  opus_frame_lockstep_all h st
+
+open Opus.SilkSyms Opus.OpusFrameEnc Opus.OpusFrameProofs Opus.OpusFrameProofs.Example in
+/-- the four example frames (one per kind; all hypotheses kernel-evaluated in OpusProofs/OpusFrameLockstepExample.lean) -/
+example : frameRangeFinal 1000 1101 1 100 480 {} (silkOnlyFrame bufS 101 (silkCfg 1101 1 100) monoPacket).payload =
+    .ok (silkOnlyFrame bufS 101 (silkCfg 1101 1 100) monoPacket).rangeFinal := opus_frame_lockstep caseSilk {}
+
+open Opus.SilkSyms Opus.OpusFrameEnc Opus.OpusFrameProofs Opus.OpusFrameProofs.Example in
+example : ∃ fr, OwnCoderFrame worldR cfgR s0R fr ∧
+    frameRangeFinal 1000 1101 1 100 480 {} (silkRedFrame bufS 101 (silkCfg 1101 1 100) monoPacket 1 worldR.bytes fr.fin.rng).payload =
+      .ok (silkRedFrame bufS 101 (silkCfg 1101 1 100) monoPacket 1 worldR.bytes fr.fin.rng).rangeFinal := by
+  obtain ⟨fr, h1, h2⟩ := caseSilkRed
+  exact ⟨fr, h1, opus_frame_lockstep h2 {}⟩
 
 end OpusProps.C08
